@@ -274,8 +274,10 @@ CLAIMED.update({
         category="other",
         text="Kernel-level partial claim: for every chain of enclosing scopes up to depth 3 (thorough 4) and every combination of 'the name is alive here / was moved here / is unknown here' "
              "per scope, the lookup that decides whether a use is reported as a use after move answers Err exactly when the innermost scope that knows the name has it moved: a moved "
-             "variable is rejected from its own and from every inner scope, and a live variable that shadows a moved outer one is not rejected. When check_expr records a move "
-             "(which parameter kinds, containers and references move a value) and the drop() side of the bookkeeping are read, not decided.",
+             "variable is rejected from its own and from every inner scope, and a live variable that shadows a moved outer one is not rejected. Stage 2 (binding/<shape>): in the call "
+             "arm of the ownership checker every positional argument of a function or method call (with self, variadic and default parameters) and every keyword argument is walked with "
+             "the ownership of the parameter it binds to, so that an argument given for a parameter of mutable type is the one that is moved. Which types count as mutable "
+             "(args_ownership), generic parameters, containers, the trailing expression of a block and the drop() side of the bookkeeping are read, not decided.",
         note="Trusts rustc's MIR dump, engines/mirsem.py + mirflow.py, z3, the std contract models listed in the evidence and the invariant that a name is not both alive and moved in one "
              "scope. The encoding (including the nth_outer_scope contract) is validated per run against the real function on all 3 + 9 + 27 (+ 81) scope chains (cargo test on the scratch copy).",
         design="0b/C23"),
